@@ -141,7 +141,9 @@ def arb_settings(d: Decl):
         pairs = [('1', '10'), ('%s::MIN' % t, '%s::MAX' % t), ('0', '100'), ('5', '7')]
         pairs = [('(%s) as %s' % (a, t) if '::' not in a else a, '(%s) as %s' % (b, t) if '::' not in b else b) for a, b in pairs]
     else:
-        pairs = [('0.0', '1.0'), ('-5.0', '5.0'), ('100.0', '200.0'), ('-1e30', '1e30'), ('1e30', '2e30'), ('%s::MIN' % t, '%s::MAX' % t)]
+        pairs = [('0.0', '1.0'), ('-5.0', '5.0'), ('100.0', '200.0'), ('-1e30', '1e30'), ('1e30', '2e30'), ('%s::MIN' % t, '%s::MAX' % t),
+                 # infinite bounds (legal; with `finite` every finite value on that side is valid)
+                 ('%s::NEG_INFINITY' % t, '%s::INFINITY' % t), ('%s::NEG_INFINITY' % t, '1.0'), ('0.0', '%s::INFINITY' % t)]
     return 'let settings: Vec<Box<dyn Fn()>> = vec![%s];' % ', '.join('Box::new(|| unsafe { SYM_LO_%s = %s; SYM_HI_%s = %s; })' % (T, a, T, b) for a, b in pairs)
 
 
@@ -243,6 +245,15 @@ def witness_crate(d: Decl, extra_inputs=()):
                         % (('match %s::try_new(s0) { Ok(i) => format!("Ok({:?})", i), Err(_) => "Err".to_string() }' % R) if has_v else 'format!("Ok({:?})", %s::sanitize(s0))' % R))
             body.append('        let real_b = match <%s as serde::Deserialize>::deserialize(NtBytes(x.as_bytes())) { Ok(v) => format!("Ok({:?})", v.into_inner()), Err(_) => "Err".to_string() };\n' % S)
             body.append('        report("Deserialize", &format!("newtype struct around the UTF-8 bytes of {}", label), setting, real_b, expected_b, n);\n    }\n')
+        if d.family in ('int', 'float'):
+            # documents written by hand (not renderings of an inner value): wider than the inner type, more
+            # precise than it, integers for floats - the newtype must do exactly what the inner type does
+            docs = '["1e39", "-1e39", "3.4028235677973366e38", "1152921573326323713", "16777217", "0.1", "7", "-7", "18446744073709551616", "340282366920938463463374607431768211455", "1.5", "1e400"]'
+            body.append('    if label.starts_with("0") || label.starts_with("(0)") { for doc in %s {\n' % docs)
+            body.append('        let expected_h = match serde_json::from_str::<%s>(doc) { Ok(x0) => %s, Err(_) => "Err".to_string() };\n'
+                        % (I, ('match %s::try_new(x0) { Ok(i) => format!("Ok({:?})", i), Err(_) => "Err".to_string() }' % R) if has_v else 'format!("Ok({:?})", %s::sanitize(x0))' % R))
+            body.append('        let real_h = match serde_json::from_str::<%s>(doc) { Ok(v) => format!("Ok({:?})", v.into_inner()), Err(_) => "Err".to_string() };\n' % S)
+            body.append('        report("Deserialize", &format!("hand-written JSON {}", doc), setting, real_h, expected_h, n);\n    } }\n')
         body.append('    for bad in ["null", "[]", "{}", "true"] { report("Deserialize", &format!("JSON {}", bad), setting, if serde_json::from_str::<%s>(bad).is_ok() { "Ok".to_string() } else { "Err".to_string() }, "Err".to_string(), n); }\n' % S)
     # views on the obtained value
     ctor = '%s::try_new(x.clone()).ok()' % S if has_v else 'Some(%s::new(x.clone()))' % S
@@ -292,7 +303,7 @@ def witness_crate(d: Decl, extra_inputs=()):
             settings = [('3', '100'), ('0', '0'), ('%s::MIN' % t, '%s::MAX' % t), ('100', '3'), ('1', '1'), ('%s::MAX' % t, '%s::MIN' % t), ('10', '11')]
             settings = [('(%s) as %s' % (a, t) if '::' not in a else a, '(%s) as %s' % (b, t) if '::' not in b else b) for a, b in settings]
         else:
-            settings = [('3.0', '100.0'), ('0.0', '0.0'), ('-0.0', '0.0'), ('%s::NEG_INFINITY' % t, '%s::INFINITY' % t), ('100.0', '3.0'),
+            settings = [('3.0', '100.0'), ('(0.1 + 0.2)', '(1.1 * 3.0)'), ('0.0', '0.0'), ('-0.0', '0.0'), ('%s::NEG_INFINITY' % t, '%s::INFINITY' % t), ('100.0', '3.0'),
                         ('%s::NAN' % t, '1.0'), ('1.0', '%s::NAN' % t), ('%s::MIN' % t, '%s::MAX' % t), ('1e30', '1e31'), ('-1e-40', '1e-40')]
         main.append('    let settings: Vec<(%s, %s)> = vec![%s];\n' % (t, t, ', '.join('(%s, %s)' % s for s in settings)))
         main.append('    for (lo, hi) in settings {\n        unsafe { SYM_LO_%s = lo; SYM_HI_%s = hi; }\n        let setting = format!("lo={:?} hi={:?}", lo, hi);\n' % (T, T))
@@ -302,7 +313,9 @@ def witness_crate(d: Decl, extra_inputs=()):
         main.append('    let alphabet = [" ", "a", "A", "\\u{df}", "\\u{130}", "\\u{3a3}", "\\u{a0}", "-", "@", "\\u{1c6}", "\\t", "_", "7", "\\u{1c5}", "\\u{1f88}", "\\u{feff}", "\\u{2003}", "\\u{200b}"];\n')
         main.append('    let mut cands: Vec<String> = vec![String::new()];\n'
                     '    for a in alphabet { cands.push(a.to_string()); for b in alphabet { cands.push(format!("{a}{b}")); for c in alphabet { cands.push(format!("{a}{b}{c}")); } } }\n'
-                    '    for n in [4usize, 5, 7, 8, 9, 19, 20, 21, 22] { cands.push("x".repeat(n)); cands.push("\\u{df}".repeat(n)); cands.push(format!(" {} ", "Q".repeat(n))); }\n')
+                    '    for n in [4usize, 5, 7, 8, 9, 19, 20, 21, 22] { cands.push("x".repeat(n)); cands.push("\\u{df}".repeat(n)); cands.push(format!(" {} ", "Q".repeat(n))); }\n'
+                    # long inputs that the sanitizers SHORTEN (custom sanitizers of the catalogue drop `-` / `_`; trim drops the padding)
+                    '    for n in [9usize, 13, 33, 40, 90] { cands.push("-".repeat(n)); cands.push("-a".repeat(n)); cands.push(format!("{}ab{}", " ".repeat(n), " ".repeat(n))); cands.push(format!("{}b", "_".repeat(n))); }\n')
         for e in extra_inputs:
             main.append('    cands.insert(0, %s.to_string());\n' % e)
         main.append('    for (lo, hi) in [(2usize, 8usize), (0, 0), (3, 3), (8, 2), (1, 20)] {\n        unsafe { SYM_LEN_LO = lo; SYM_LEN_HI = hi; }\n'
